@@ -164,7 +164,57 @@ class WalletHistories:
         return {"canon": hist, "viols": viols, "label": label}
 
 
+class SameMasterHistories:
+    """two wallet objects holding the SAME master key (A built from mnemonic+passphrase, B imported from A's master
+    xprv) used alternately in one process; default renderings (json() without data) must describe the wallet they are
+    called on. canon = the history."""
+    OPS = [["A", "json"], ["B", "json"], ["A", "gen"], ["B", "gen"], ["B", "export"]]
+
+    def ops(self, hist):
+        return self.OPS
+
+    def run(self, hist):
+        from btc_hd_wallet.paper_wallet import PaperWallet
+        src = SOURCES[1]
+        a, m, mn, pw = build(src, False)
+        b = PaperWallet.from_extended_key(hd.xprv(m))
+        ws = {"A": (a, mn, pw), "B": (b, None, None)}
+        viols, label = [], "init"
+        for n, (wid, req) in enumerate(hist):
+            w, wmn, wpw = ws[wid]
+            if req == "gen":
+                st, out = attempt(w.generate, 0, (0, 1))
+                exp = hd.paper_generate(m, False, 0, (0, 1), wmn, wpw)
+            elif req == "json":
+                st, out = attempt(w.json)
+                out = json.loads(out) if st == "ok" else out
+                exp = hd.paper_generate(m, False, 0, (0, 20), wmn, wpw)
+            else:
+                import os, tempfile
+                d = tempfile.mkdtemp(prefix="vfc06.")
+                f = os.path.join(d, "w.json")
+                st, out = attempt(w.export_wallet, f)
+                if st == "ok":
+                    out = json.load(open(f))
+                __import__("shutil").rmtree(d, ignore_errors=True)
+                exp = hd.paper_generate(m, False, 0, (0, 20), wmn, wpw)
+            if n == len(hist) - 1:
+                if st != "ok":
+                    viols.append(V(P + ":same-master-history:%s:raised" % req, "after %r: %s.%s raised %s" % (hist[:-1], wid, req, out)))
+                elif out != exp:
+                    d = diff_paths(out, exp)
+                    viols.append(V("%s:same-master-history:%s:differs" % (P, req), "after %r in the same process, wallet %s's %s differs from its own reference wallet at %r" % (
+                        hist[:-1], wid, req, d[:4])))
+                label = "violation" if viols else "answer-ok"
+        return {"canon": hist, "viols": viols, "label": label}
+
+
 def execute(case):
+    if "hist" in case and case.get("layer") == "two-wallets-same-master":
+        r = isolated(SameMasterHistories().run, case["hist"])
+        for v in r["viols"]:
+            v["case"] = case
+        return R(r["label"], viols=r["viols"])
     if "hist" in case:
         r = isolated(WalletHistories().run, case["hist"])
         for v in r["viols"]:
@@ -196,4 +246,5 @@ def run(ctx):
                     cases.append(c)
     ctx.product("generate-vs-reference", cases, execute, chunk=1)
     bfs(ctx, "wallet-object-histories", WalletHistories(), 3 if ctx.thorough else 2, chunk=1)
+    bfs(ctx, "two-wallets-same-master", SameMasterHistories(), 2, chunk=1)
     return {"sources": len(SOURCES), "accounts": accts, "intervals": INTERVALS, "deviation_bound": None if ctx.thorough else 2}
